@@ -421,7 +421,63 @@ func init() {
 					}
 				}
 			}
+			// … or a helper that BasicParser hands its receiver to does, before every return of a URL, and BasicParser calls it
+			// before every return of a URL
+			var viaHelper *ssa.Call
 			if pstore == nil {
+				for _, b := range bp.Blocks {
+					for _, ins := range b.Instrs {
+						call, ok := ins.(*ssa.Call)
+						if !ok {
+							continue
+						}
+						h := call.Common().StaticCallee()
+						if h == nil || !c.P.InModule(h) || len(h.Blocks) == 0 {
+							continue
+						}
+						var hp *ssa.Parameter
+						for i, a := range call.Common().Args {
+							if a == ssa.Value(bp.Params[0]) && i < len(h.Params) {
+								hp = h.Params[i]
+							}
+						}
+						if hp == nil {
+							continue
+						}
+						for _, hb := range h.Blocks {
+							for _, hi := range hb.Instrs {
+								st, ok := hi.(*ssa.Store)
+								if !ok || st.Val != ssa.Value(hp) {
+									continue
+								}
+								if _, ok := fieldAddrOf(st.Addr, "Url:parser"); !ok {
+									continue
+								}
+								dom := true
+								for _, rb := range h.Blocks {
+									if r, isR := rb.Instrs[len(rb.Instrs)-1].(*ssa.Return); isR && len(r.Results) > 0 && !isNilConst(r.Results[0]) && !hb.Dominates(rb) {
+										dom = false
+									}
+								}
+								if dom {
+									viaHelper = call
+								}
+							}
+						}
+					}
+				}
+			}
+			if pstore == nil && viaHelper != nil {
+				okAll := true
+				for _, b := range bp.Blocks {
+					if r, ok := b.Instrs[len(b.Instrs)-1].(*ssa.Return); ok && ff.Reachable(b) {
+						if !isNilConst(r.Results[0]) && !ff.Dominates(viaHelper.Block(), b) {
+							okAll = false
+						}
+					}
+				}
+				s.Check(okAll, "funnel/BasicParser/parser-field", c.P.Pos(viaHelper.Pos()), "a helper that stores url.parser = p is called before every return of a URL", "a URL can be returned without carrying the parser that produced it")
+			} else if pstore == nil {
 				s.Bad("funnel/BasicParser/parser-field", c.P.Pos(bp.Pos()), "BasicParser never stores its receiver into url.parser")
 			} else {
 				okAll := true
@@ -492,9 +548,10 @@ func init() {
 							}
 						}
 						if !found {
-							// buffer discipline of the state machine: strconv.Atoi(buffer.String()) in the port state
-							if sm.An != nil && f == sm.An.fn {
-								if ok, why := portBufferDigitsOnly(c, sm, call); ok {
+							// buffer discipline of the state machine: strconv.Atoi(buffer.String()) in the port state (or in a helper
+							// of that state which is handed the buffer's text)
+							if site, inSM := sm.SiteInMachine(c, f, call); inSM {
+								if ok, why := portBufferDigitsOnly(c, sm, site); ok {
 									s.OK(key, pos, why, props...)
 									continue
 								} else if why != "" {
@@ -1202,8 +1259,8 @@ func strconvDigitsOnly(c *Ctx, f *ssa.Function, call *ssa.Call) bool {
 		}
 	}
 	sm := BuildSM(c)
-	if sm.An != nil && f == sm.An.fn {
-		if ok, _ := portBufferDigitsOnly(c, sm, call); ok {
+	if site, inSM := sm.SiteInMachine(c, f, call); inSM {
+		if ok, _ := portBufferDigitsOnly(c, sm, site); ok {
 			return true
 		}
 	}
